@@ -314,7 +314,11 @@ func (ta Table) SelectKeys() [][]Column {
 	for _, colNames := range ta.selectKeys {
 		cols := make([]Column, len(colNames))
 		for i, name := range colNames {
-			cols[i] = colsByName[name]
+			var ok bool
+			cols[i], ok = colsByName[name]
+			if !ok {
+				panic(fmt.Sprintf("unknown column name %s in table %s", name, ta.TableName()))
+			}
 		}
 
 		out = append(out, cols)
